@@ -682,6 +682,8 @@ package gldap
 //@ ghost tdone Int
 //@ ghost twait Int
 //@ ghost tlclose Int
+//@ ghost temperr Bool
+//@ ghost acctemp Bool
 
 // ---- trusted contracts of net / tls / sync used by the life-cycle properties (A-NET, A-TLS, A-SYNC)
 //@ extern net.Listen
@@ -713,6 +715,17 @@ package gldap
 //@   ensures (err == nil) == !isNilIface(c)
 //@   ensures err == nil ==> iref(c) != 0 && G_cclosed[iref(c)] == 0 && G_tlscfg[iref(c)] == G_tlscfg[iref(l)]
 //@   ensures err != nil && strcontains(errstr(err), "use of closed network connection") ==> G_lclosed[iref(l)]
+//@   sets G_acctemp[0] = err != nil && implements(err, net.Error) && G_temperr[iref(err)]
+//@   panics false
+//@ extern time.Sleep
+//@   params d time.Duration
+//@   panics false
+// C07: an accept error is transient (descriptor exhaustion, aborted handshake) exactly when it is a
+// net.Error whose Temporary method says so - the classification net/http's accept loop uses.
+//@ extern iface:net.Error.Temporary
+//@   params e net.Error
+//@   results r bool
+//@   ensures r == G_temperr[iref(e)]
 //@   panics false
 //@ extern iface:net.Listener.Close
 //@   params l net.Listener
@@ -781,10 +794,11 @@ package gldap
 //@   requires srvOK(s) && !held(&s.mu) && G_maxid[0] == 0 && G_wgcnt[&s.connWg] >= 0
 //@   ensures  !held(&s.mu)
 //@   ensures[C12] err == nil ==> !isNilIface(s.listener) && G_lclosed[iref(s.listener)]
+//@   ensures[C07] err != nil ==> !G_acctemp[0] || old(G_acctemp[0])
 //@   panics false
-//@   tags C17 C09 C18 C15
+//@   tags C17 C09 C18 C15 C07
 //@ loop 1
-//@   invariant connID == G_maxid[0] && connID >= 0
+//@   invariant connID >= G_maxid[0] && connID >= 0
 //@   invariant srvOK(s)
 //@   invariant !held(&s.mu)
 //@   invariant !isNilIface(s.listener)
